@@ -266,6 +266,9 @@ impl BigNumber {
     }
 
     pub fn exp(&self, a: &BigNumber) -> ClResult<BigNumber> {
+        if a.openssl_bn.is_negative() {
+            return Err(err_msg!("exponent cannot be negative"));
+        }
         let mut bn = BigNumber::new()?;
         with_bn_context(|ctx| {
             BigNumRef::exp(&mut bn.openssl_bn, &self.openssl_bn, &a.openssl_bn, ctx)
